@@ -28,8 +28,10 @@ type Prog struct {
 	Fset  *token.FileSet
 	funcs map[string]*ssa.Function // canonical short name -> function
 	// RepoFuncs is every function (incl. anonymous) whose package is in the module.
-	RepoFuncs []*ssa.Function
-	byPkg     map[string]*packages.Package
+	RepoFuncs    []*ssa.Function
+	byPkg        map[string]*packages.Package
+	fieldWriters map[string]map[*ssa.Function]bool // tn.field -> functions that may (transitively) store it
+	lineWritesBy map[*ssa.Function][]ssa.Instruction
 }
 
 // shortName canonicalises an ssa function name:
@@ -138,6 +140,7 @@ func Load(dir, goos, goarch string, overlay map[string][]byte) (*Prog, error) {
 		P.funcs[n] = f
 	}
 	sort.Slice(P.RepoFuncs, func(i, j int) bool { return fnName(P.RepoFuncs[i]) < fnName(P.RepoFuncs[j]) })
+	progOf[prog] = P
 	return P, nil
 }
 
